@@ -71,8 +71,16 @@ def cache_load(url):
 
         # Keep the bytes as they are: the XML declaration of the resource
         # names its encoding, which need not be UTF-8.
-        with open(cache_file, "wb") as local_file:
-            local_file.write(data)
+        # Loaders of other handlers share the cache file and may read it at any
+        # time: never show them a file that is only partly written.
+        part_file = "%s.part%s" % (cache_file, threading.current_thread().ident)
+        try:
+            with open(part_file, "wb") as local_file:
+                local_file.write(data)
+            os.replace(part_file, cache_file)
+        finally:
+            if os.path.exists(part_file):
+                os.remove(part_file)
 
     return cache_file
 
